@@ -84,6 +84,8 @@ def retraction(ctx, eng, qual, mk_kwargs, label, set_attrs=()):
     paths = eng.run(target, mk)
     nm = f"{qual.split('panoptica.')[1]}[{label}]"
     fn = qual + "._yaml_repr"
+    # what is written must be a function of the configuration, not of a hash-table order (re-saving the loaded object reproduces the file)
+    ctx.side_obligations(paths, nm, func=qual + ".__init__", replay="c19.labelorder", skip=lambda s_: not s_.startswith("order-independence"))
     ok_any = False
     for pi, p in enumerate(paths):
         if p.kind != "return":
@@ -303,4 +305,6 @@ def build(ctx):
 
 
 def concretise(ctx, o, r):
+    if o.replay == "c19.labelorder":
+        return {}
     return {"obligation": o.name, "file": o.info.get("file")}
